@@ -46,6 +46,7 @@ type Obligation struct {
 	Merge    []string                  `json:"merge"` // pure loop-free scalar callees evaluated by path merging
 	LoopBounds map[string]int          `json:"loop_bounds"`
 	Tiers    []string                  `json:"tiers"`
+	Opts     map[string]string         `json:"opts"` // engine options, e.g. {"pool": "lifo"}
 	What     string                    `json:"what"`
 }
 
@@ -213,10 +214,17 @@ func load(cfg *Config, id string, obls []Obligation) (*loaded, string, error) {
 	prog, spkgs := ssautil.AllPackages(pkgs, ssa.InstantiateGenerics)
 	prog.Build()
 	l := &loaded{prog: prog, pkgs: map[string]*ssa.Package{}, loadS: time.Since(t0).Seconds()}
+	// "./chord" is also a suffix of ".../spec/chord": among the loaded roots whose path ends in the obligation's
+	// directory take the shortest one (the directory relative to the module root).
+	best := map[string]int{}
 	for i, p := range pkgs {
 		for _, o := range obls {
-			if l.pkgs[o.Pkg] == nil && strings.HasSuffix(p.PkgPath, strings.TrimPrefix(filepath.Clean(o.Pkg), ".")) {
-				l.pkgs[o.Pkg] = spkgs[i]
+			dir := strings.TrimPrefix(filepath.Clean(o.Pkg), ".")
+			if p.PkgPath == dir || strings.HasSuffix(p.PkgPath, "/"+strings.TrimPrefix(dir, "/")) {
+				if n, ok := best[o.Pkg]; !ok || len(p.PkgPath) < n {
+					best[o.Pkg] = len(p.PkgPath)
+					l.pkgs[o.Pkg] = spkgs[i]
+				}
 			}
 		}
 	}
@@ -288,6 +296,7 @@ func runObligation(cfg *Config, l *loaded, o Obligation, conc *interp.Concrete, 
 	}
 	eng.Deadline = time.Now().Add(time.Duration(ts) * time.Second)
 	eng.LoopBounds = o.LoopBounds
+	eng.Opts = o.Opts
 	eng.UnwindIgnore = o.Unwind == "ignore"
 	eng.UnwindIsViolation = o.Unwind == "violation"
 	eng.DeadlockIsViolation = o.Deadlock == "violation"
@@ -1013,7 +1022,7 @@ func (ev *evidence) write(cfg *Config, spec *Spec, results []*oblResult, wall fl
 			"max_loop_unwinding": e.MaxLoop, "max_call_depth": e.MaxDepth, "preemption_bound": e.MaxPreempt,
 			"paths": e.NPaths, "path_outcomes": e.Outcomes, "decisions": e.Decisions, "ssa_instructions_executed": e.Steps,
 			"scheduling_points": e.SchedPts,
-			"queries": e.Queries, "sat": e.NSat, "unsat": e.NUnsat, "unknown": e.NUnknown, "solver_s": round1(e.SolverTime), "wall_s": round1(r.WallS),
+			"queries": e.Queries, "sat": e.NSat, "unsat": e.NUnsat, "unknown": e.NUnknown, "feasibility_unknown_explored_as_feasible": e.FeasUnknown, "solver_s": round1(e.SolverTime), "wall_s": round1(r.WallS),
 			"assertion_queries_by_label": e.Asserts, "witnesses_required": r.Obl.Reach, "witnesses_missing": r.MissingReach,
 			"replay": map[bool]string{true: "native (go test -overlay against the real build)", false: "engine-trace (concrete re-execution of the SSA under the model)"}[r.Obl.Native],
 			"unwind_is_violation": e.UnwindIsViolation, "deadlock_is_violation": e.DeadlockIsViolation,
